@@ -1,10 +1,10 @@
 #!/venv/bin/python
 """test_translator.py <wrap|elem> — mutation self-test of a translation tie.
 
-For each small semantic edit of a scratch COPY of /repo/scoda: regenerate lean/SCoda/Gen/*.lean from the copy
+For each small semantic edit of a scratch COPY of $ORIG_REPO/scoda (default /repo): regenerate lean/SCoda/Gen/*.lean from the copy
 (SCODA_REPO=<copy> tools/gen_lean.py), require that the generated file changed (or that generation failed loudly), and require
 that `lake build <tie module>` FAILS.  The unedited source must PASS first and last (the last run restores the generated files).
-/repo is never written.  The conventions fingerprint (tools/conventions.py) is switched off for these runs (TIE_ONLY=1, the default), so that
+The original is never written.  The conventions fingerprint (tools/conventions.py) is switched off for these runs (TIE_ONLY=1, the default), so that
 the result says what the translation tie alone catches; with TIE_ONLY=0 the fingerprint is on as in a real check.  (The view, rel2, static, tok, abs2 and util translators have their own scripts tools/test_py2lean*.sh.)
 """
 import json
@@ -17,6 +17,7 @@ import sys
 HERE = os.path.dirname(os.path.dirname(os.path.abspath(__file__)))
 PY = "/venv/bin/python"
 SCRATCH = os.environ.get("SCRATCH", "/root/work/translator_selftest")
+ORIG_REPO = os.environ.get("ORIG_REPO", "/repo")      # the unedited source tree the mutants are cut from
 
 SUITES = {
     "wrap": {
@@ -46,7 +47,7 @@ SUITES = {
              "int(self.time_signature_numerator * PPQN / (self.time_signature_denominator / 2))", "Bar.__init__: capacity for a /2 instead of /4 beat"),
             ("e2_bar_transpose", "elements/bar.py", r"return self\.sequence\.transpose\(transpose_by\)", "return self.sequence.transpose(-transpose_by)",
              "Bar.transpose: interval negated"),
-            ("e3_bar_copy_key", "elements/bar.py", r"self\.time_signature_numerator, self\.time_signature_denominator, self\.key_signature\)", "self.time_signature_numerator, self.time_signature_denominator, None)",
+            ("e3_bar_copy_key", "elements/bar.py", r"self\.time_signature_numerator, self\.time_signature_denominator, self\.key_signature([,)])", r"self.time_signature_numerator, self.time_signature_denominator, None\1",
              "Bar.copy: key signature dropped"),
             ("e4_track_copy", "elements/track.py", r"\[bar\.copy\(\) for bar in self\.bars\]", "[bar for bar in self.bars]",
              "Track.copy: bars shared with the original"),
@@ -54,6 +55,10 @@ SUITES = {
              "Bar.to_sequence: last bar skipped"),
             ("e6_is_empty", "elements/bar.py", r"return self\.sequence\.is_empty\(\)", "return not self.sequence.is_empty()",
              "Bar.is_empty: negated"),
+            ("e7_bar_copy_channel", "elements/bar.py", r"(self\.time_signature_denominator, self\.key_signature),\s*self\.default_channel\)", r"\1)",
+             "Bar.copy: default_channel not handed on (the repair of D37 reverted in copy)"),
+            ("e8_bar_init_channel", "elements/bar.py", r"\n\s*self\.default_channel = default_channel\n", r"\n",
+             "Bar.__init__: default_channel not stored (the repair of D37 reverted in __init__)"),
         ]},
 }
 
@@ -84,13 +89,13 @@ def main():
     os.makedirs(SCRATCH, exist_ok=True)
     fail = False
     genpath = os.path.join(HERE, "lean", "SCoda", "Gen", suite["gen"])
-    r, why = regen_and_build("/repo", suite)
+    r, why = regen_and_build(ORIG_REPO, suite)
     print(f"original: {r} {why}")
     fail |= r != "PASS"
     for mname, file, pat, rep, desc in suite["mutants"]:
         root = os.path.join(SCRATCH, mname)
         shutil.rmtree(root, ignore_errors=True)
-        shutil.copytree("/repo/scoda", os.path.join(root, "scoda"))
+        shutil.copytree(os.path.join(ORIG_REPO, "scoda"), os.path.join(root, "scoda"))
         path = os.path.join(root, "scoda", file)
         src = open(path).read()
         new, n = re.subn(pat, rep, src, count=1, flags=re.S)
@@ -107,7 +112,7 @@ def main():
             print("    !! MUTANT SURVIVED")
             fail = True
         shutil.rmtree(root, ignore_errors=True)
-    r, why = regen_and_build("/repo", suite)
+    r, why = regen_and_build(ORIG_REPO, suite)
     print(f"original again: {r} {why}")
     fail |= r != "PASS"
     shutil.rmtree(SCRATCH, ignore_errors=True)
